@@ -21,6 +21,9 @@ def numeval(r, env):
         a = alg.TABLE.atoms[i]
         if i in env:
             sub[i] = C(env[i])
+        elif a.kind == 'sym' and a.name == 'pi':
+            import math
+            sub[i] = C(F(math.pi))
         elif a.kind == 'fn':
             v = fn_value(a, env)
             if v is None:
@@ -61,6 +64,14 @@ def fn_value(a, env):
         return F(int(args[0]))
     if n == 'nearest' and args and args[0] is not None:
         return F(round(args[0]))
+    if n in ('atan', 'sin', 'cos', 'tan', 'sqrt', 'asin', 'acos', 'exp', 'log') and len(args) == 1 and args[0] is not None:
+        # a decimal approximation: good enough to tell on which side of a threshold a sample lies (the samples are not ON thresholds of
+        # transcendental forms - those are not among the critical values)
+        import math
+        try:
+            return F(getattr(math, n)(float(args[0])))
+        except (ValueError, OverflowError):
+            return None
     if n == 'floordiv' and len(args) == 2 and None not in args and args[1] != 0:
         return F(args[0] // args[1])
     if n == 'mod' and len(args) == 2 and None not in args and args[1] != 0:
@@ -125,7 +136,7 @@ def decide_guard(cond, domain, integer=()):
     # every free symbol of the condition must be a domain symbol
     for i in cond.atoms(deep=True):
         a = alg.TABLE.atoms[i]
-        if a.kind == 'sym' and a.name not in domain:
+        if a.kind == 'sym' and a.name not in domain and a.name != 'pi':
             return 'unknown', 'depends on %s, which has no domain' % a.name
         if a.kind == 'unk':
             return 'unknown', 'depends on a value the evaluator does not model'
